@@ -215,9 +215,12 @@ func replayFile(path string) {
 		}
 		engines = append(engines, inst)
 	}
-	for _, l := range m.Lines(1) {
-		if a := orc.Ask(l); a != "ok" {
-			fmt.Printf("lean: %q -> %s\n", l, a)
+	useLean := !strings.Contains(strings.Join(rp.Module, " "), "v128") // SIMD is outside the Lean fragment
+	if useLean {
+		for _, l := range m.Lines(1) {
+			if a := orc.Ask(l); a != "ok" {
+				fmt.Printf("lean: %q -> %s\n", l, a)
+			}
 		}
 	}
 	defer func() {
@@ -239,7 +242,10 @@ func replayFile(path string) {
 				fmt.Printf("call %d %-12s %s\n", c, e.name, o)
 			}
 		}
-		want := orc.Askf("c01 call 1 %d %d %s", call.Func, call.Fuel, strings.Join(append([]string{""}, call.Args...), " "))
+		want := "exhausted"
+		if useLean {
+			want = orc.Askf("c01 call 1 %d %d %s", call.Func, call.Fuel, strings.Join(append([]string{""}, call.Args...), " "))
+		}
 		if !quiet {
 			fmt.Printf("call %d %-12s %s\n", c, "lean", want)
 		}
